@@ -104,6 +104,15 @@ def build_fixtures(seed: int):
         st.putpixel((x, x % SRC_PX[1]), (250, 20, 20, 0 if x % 2 else 128))
     st.save(LIB / "static.png")
     st.convert("RGB").save(LIB / "staticrgb.png")
+    for name in ("anim.gif", "anim.webp"):  # harness sanity, independent of term-image
+        src = Image.open(LIB / name)
+        fr = []
+        for i in range(NFRAMES):
+            src.seek(i)
+            fr.append(src.convert("RGBA").tobytes())
+        src.close()
+        if len(set(fr)) != NFRAMES:
+            raise MachineryError(f"fixture {name}: frames are not pairwise different")
     (LIB / "notimage.gif").write_bytes(b"this is not an image\n" * 20)
     for name in os.listdir(LIB):
         for d in (CALLER, SHADOW, REF):
@@ -362,6 +371,7 @@ class Table:
         self.steps: dict[tuple, dict[str, int]] = {}
         self.rsizes: dict[tuple, dict[tuple, str]] = {}
         self.srcframes: dict[str, list] = {}
+        self.errors: dict[tuple, str] = {}  # what real code did wrong while rendering references
 
     def _ref_image(self, cfg, anim: bool):
         cls = image_class(cfg["style"])
@@ -369,6 +379,10 @@ class Table:
         return cls.from_file(str(REF / name))
 
     def table(self, cfg, anim: bool, spec: str, cur_term: int) -> dict[str, tuple[int, str]]:
+        """Reverse table for (config, animated?, spec).  The reference renders run REAL code: if
+        they raise, or no longer tell frames / sizes apart, that is the code's doing (the fixture
+        itself is checked without term-image in build_fixtures) - the problem is remembered in
+        ``self.errors`` and shows up as an undecodable / wrongly decoded frame, never as exit 2."""
         from term_image.image import Size
 
         key = (cfg_key(cfg), anim, spec)
@@ -378,9 +392,10 @@ class Table:
             raise MachineryError("reference table built while a fault is armed")
         tab: dict[str, tuple[int, str]] = {}
         rsz: dict[tuple, str] = {}
-        img = self._ref_image(cfg, anim)
         saved_tag = SEAMS.owner_tag
+        img = None
         try:
+            img = self._ref_image(cfg, anim)
             for rs in ("A", "B", "d1", "d2"):
                 if rs in FIXED:
                     apply_env(cfg, cur_term)
@@ -388,7 +403,7 @@ class Table:
                 else:
                     apply_env(cfg, int(rs[1]))
                     img.size = Size.FIT
-                rsz[tuple(img.rendered_size)] = rs
+                rsz.setdefault(tuple(img.rendered_size), rs)
                 for i in range(NFRAMES if anim else 1):
                     if anim:
                         img.seek(i)
@@ -401,19 +416,24 @@ class Table:
                     if spec.endswith("+A") and anim:
                         continue  # native animation: the whole file, frame independent
                     if s in tab:
-                        raise MachineryError(
-                            f"fixture frames not distinguishable: {cfg} {spec} {rs} frame {i} "
-                            f"renders like {tab[s]}"
-                        )
+                        self.errors[key] = (f"format() renders frame {i} at size {rs} exactly like "
+                                            f"frame {tab[s][0]} at size {tab[s][1]}")
+                        continue  # first one wins
                     tab[s] = (i, rs)
+        except MachineryError:
+            raise
+        except Exception as e:
+            self.errors[key] = f"reference format() raised {type(e).__name__}: {e}"
         finally:
-            img.close()
+            with contextlib.suppress(Exception):
+                if img is not None:
+                    img.close()
             apply_env(cfg, cur_term)
             SEAMS.owner_tag = saved_tag
-        if len(rsz) != 4:
-            raise MachineryError(f"abstract sizes do not map to 4 distinct rendered sizes: {rsz}")
+        if len(rsz) != 4 and key not in self.errors:
+            self.errors[key] = f"the four size settings give rendered sizes {sorted(rsz)}"
         self.tabs[key] = tab
-        self.rsizes[cfg_key(cfg)] = rsz
+        self.rsizes.setdefault(cfg_key(cfg), {}).update(rsz)
         return tab
 
     def applicable_steps(self, cfg, anim: bool, spec: str, frame: int | None, cur_term: int) -> dict[str, int]:
@@ -446,7 +466,7 @@ class Table:
         except Exception:
             return (-2, "?")
         self.table(cfg, True, cfg["s1"], cur_term)
-        rs = self.rsizes[cfg_key(cfg)].get(cells, "?")
+        rs = self.rsizes.get(cfg_key(cfg), {}).get(cells, "?")
         fx = cfg["anim_fx"]
         if fx not in self.srcframes:
             src = SEAMS.orig_open(str(REF / FIXTURES[fx][0]))
@@ -477,6 +497,9 @@ class Table:
                 return self.decode_structural(cfg, s, cur_term)
             raise MachineryError("format() with a native-animation spec is not decoded")
         return self.table(cfg, anim, spec, cur_term).get(s, (-2, "?"))
+
+    def error_for(self, cfg, anim: bool, spec: str) -> str | None:
+        return self.errors.get((cfg_key(cfg), anim, cfg["s1"] if spec.endswith("+A") else spec))
 
 
 TABLE = Table()
@@ -534,11 +557,22 @@ class World:
             with contextlib.suppress(OSError):
                 os.remove(os.path.join(SEAMS.common._TEMP_DIR, n))
         self.log: list[dict] = []
+        self.shadow_dead = False
+        self.trace_init = dict(init)
+        self.init_failed = False
         if init["kind"] != "none":
             ev = self.execute(new_action("open", kind=init["kind"], anim=init["anim"],
                                          size=init["size"], outcome="ok"), record=False)
             if ev["o"]["res"] != "ok":
-                raise MachineryError(f"initial construction failed: {ev}")
+                # the history then starts from the empty state with the failed construction
+                # as its first (judged) event
+                self.init_failed = True
+                self.trace_init = dict(kind="none", anim=False, size="dyn", term=init["term"])
+                self.log.append(ev)
+
+    def trace(self) -> dict:
+        return {"init": self.trace_init, "events": self.log, "cfg": self.cfg,
+                "offset": 1 if self.init_failed else 0}
 
     # -- observation
     @staticmethod
@@ -570,12 +604,18 @@ class World:
         size = ""
         tell = 0
         if self.image is not None:
-            sz = self.image.size
-            if sz is Size.FIT:
-                size = "dyn"
-            else:
-                size = next((k for k, v in FIXED.items() if v == sz), "?")
-            tell = self.image.tell()
+            try:
+                sz = self.image.size
+                if sz is Size.FIT:
+                    size = "dyn"
+                else:
+                    size = next((k for k, v in FIXED.items() if v == sz), "?")
+            except Exception as e:
+                size = "!" + type(e).__name__
+            try:
+                tell = int(self.image.tell())
+            except Exception:
+                tell = -9
         # "closed" = Image.close() was called (the image is unusable).  The file object alone
         # does not tell: Pillow closes e.g. a WebP file itself once it is decoded.
         caller_open = False
@@ -654,10 +694,13 @@ class World:
         op = a["op"]
         a = dict(a)
         frame_s: list[str | None] = [None]
-        shadow_s: list[str | None] = [None]
-        shadow_res = [None]
         nframes = [0]
-        tell_before = self.image.tell() if self.image is not None else 0
+        exc_text: list[str | None] = [None]
+        ref_err = None
+        try:
+            tell_before = self.image.tell() if self.image is not None else 0
+        except Exception:
+            tell_before = -9
         anim_draw = op == "draw" and a["animated"] and self.anim
         SEAMS.owner_tag = "iter" if op == "iter" else "call"
         renders_before = SEAMS.render_calls
@@ -745,12 +788,16 @@ class World:
             finally:
                 fired = SEAMS.disarm()
             res = _classify(exc)
+            if exc is not None and res not in ("stop", "fault"):
+                exc_text[0] = f"{type(exc).__name__}: {exc}"[:300]
             exc = None
             rendered = SEAMS.render_calls - renders_before
             # the paired iterator (opposite cache setting) receives the same iterator operations
-            pair = "na"
-            if self.pair:
-                pair = self._mirror(a, res, frame_s[0])
+            pair, pair_err = "na", None
+            if self.pair and not self.shadow_dead:
+                pair, pair_err = self._mirror(a, res, frame_s[0])
+                if pair == "diff":
+                    self._kill_shadow()  # the twins are out of step from here on
             gc.collect()
         gcw = sum(
             1 for w in wlist
@@ -768,13 +815,20 @@ class World:
             spec = (self._concrete_spec(a["spec"]) if op == "format" else
                     self.it_spec if op == "next" else self.cfg["s1"])
             frame = TABLE.decode(self.cfg, self.anim, spec, frame_s[0], self.term, iterator=op == "next")
+            ref_err = TABLE.error_for(self.cfg, self.anim, spec)
             if op == "next":
                 res = "frame"
         tell_same = True
         if op == "draw" and self.image is not None:
-            tell_same = self.image.tell() == tell_before
+            try:
+                tell_same = self.image.tell() == tell_before
+            except Exception:
+                tell_same = False
         o = self._observe(res, frame, gcw, tell_same, pair, nframes[0],
                           -1 if op != "next" else min(rendered, 1))
+        for k, v in (("raised", exc_text[0]), ("pairErr", pair_err), ("refErr", ref_err)):
+            if v:  # plain ASCII: these strings travel through JSON into TLC
+                o[k] = "".join(c if 32 <= ord(c) < 127 and c not in '"\\' else "?" for c in v)
         ev = {"a": a, "o": o}
         if record:
             self.log.append(ev)
@@ -788,18 +842,30 @@ class World:
         tail = SGR_DEFAULT + "\n"
         return out[: -len(tail)] if out.endswith(tail) else out
 
-    def _mirror(self, a: dict, res: str, frame: str | None) -> str:
-        """Apply iterator-relevant operations to the shadow pair; compare yielded frames."""
+    def _kill_shadow(self):
+        self.shadow_dead = True
+        for obj in (self.shadow_it, self.shadow):
+            with contextlib.suppress(Exception):
+                if obj is not None:
+                    obj.close()
+        self.shadow_it = self.shadow = None
+
+    def _mirror(self, a: dict, res: str, frame: str | None) -> tuple[str, str | None]:
+        """Apply iterator-relevant operations to the twin (same file, opposite cache setting).
+
+        Returns (pair, error): "same"/"diff"/"na".  The twin runs REAL code on operations the
+        primary performed successfully: an exception from it is a difference between a cached
+        and an uncached iterator ("diff" + the exception text), never a harness failure."""
         op = a["op"]
         try:
             if op == "open" and res == "ok" and a["anim"]:
                 fx = FIXTURES[self.cfg["anim_fx"]][0]
-                self.shadow = self.cls.from_file(str(SHADOW / fx), **self._size_kw(a["size"]))
                 self.shadow_it = None
+                self.shadow = self.cls.from_file(str(SHADOW / fx), **self._size_kw(a["size"]))
             elif op in ("open", "dropimage") and res == "ok":
                 self.shadow = self.shadow_it = None
             elif self.shadow is None:
-                return "na"
+                return "na", None
             elif op == "setsize":
                 self._set_size(self.shadow, a["size"])
             elif op == "iter" and res == "ok":
@@ -815,32 +881,37 @@ class World:
             elif op == "next" and self.shadow_it is not None:
                 if res == "fault":
                     self.shadow_it.close()
-                    return "na"
-                sres, sf = "ok", None
+                    return "na", None
+                sres, sf, err = "ok", None, None
                 try:
                     sf = next(self.shadow_it)
                 except StopIteration:
                     sres = "stop"
-                except Exception as e:  # the primary must then have failed the same way
+                except Exception as e:
                     sres = type(e).__name__
-                return "same" if (sres, sf) == (res, frame) else "diff"
+                    err = f"twin next() raised {type(e).__name__}: {e}"[:300]
+                if (sres, sf) == (res, frame):
+                    return "same", None
+                if err is None:
+                    err = (f"twin next() -> {sres}" if sres != "ok" or res != "ok"
+                           else "twin yielded a different frame")
+                return "diff", err
         except Exception as e:
-            raise MachineryError(f"shadow iterator failed on {op}: {type(e).__name__}: {e}") from e
-        return "na"
+            return "diff", f"twin {op} raised {type(e).__name__}: {e}"[:300]
+        return "na", None
 
     def close(self):
         """Tear the world down (not an observed operation)."""
         with warnings.catch_warnings():
             warnings.simplefilter("ignore")
-            for obj in (self.it, self.shadow_it):
-                if obj is not None:
-                    obj.close()
+            for obj in (self.it, self.shadow_it, self.image, self.shadow):
+                with contextlib.suppress(Exception):
+                    if obj is not None:
+                        obj.close()
             self.it = self.shadow_it = None
-            for obj in (self.image, self.shadow):
-                if obj is not None:
-                    obj.close()
             self.image = self.shadow = None
-            self._close_caller()
+            with contextlib.suppress(Exception):
+                self._close_caller()
             gc.collect()
             # a world that leaked must not poison the next one
             for r, _, _ in SEAMS.tracked:
